@@ -15,8 +15,9 @@
        unlock }; got one -> return it; wakeupTime == 0 -> B_TIMED_OUT; else block (select on the socket, which does not
        consume the bytes and also returns at end-of-file / Wait() on the wait-condition, which flushes its counter) and
        recurse -- with wakeupTime 0 in socket mode, with the same wakeupTime in wait-condition mode;
-     - StartInternalThread (the unlocked read of _messages.HasItems(), demand-allocation of the socket pair,
-       _threadRunning, thread creation, the initial signal), ShutdownInternalThread (NULL Message, optional join),
+     - StartInternalThread (demand-allocation of the socket pair, _threadRunning, thread creation, then -- under
+       _queueLock -- needsInitialSignal := _messages.HasItems(), then the initial signal; [early] = true gives the
+       order the code had before the repair: the unlocked HasItems() read came first), ShutdownInternalThread (NULL Message, optional join),
        WaitForInternalThreadToExit (join, _threadRunning := false, CloseSockets), GetOwnerWakeupSocket (demand
        allocation only);
      - InternalThreadEntryAux / InternalThreadEntry: signal the owner if replies are already queued (under the reply
@@ -87,7 +88,9 @@ Inductive pc :=
 (* StartInternalThread *)
 | PStartRead
 | PStartSpawn (needs : bool)
-| PStartSig (needs : bool)                   (* the thread was created *)
+| PStartSpawned                              (* the thread was created *)
+| PStartCheck                                (* about to lock _queueLock to read _messages.HasItems() *)
+| PStartSig (needs : bool)                   (* needsInitialSignal is known, the lock (if any) released *)
 (* ShutdownInternalThread / WaitForInternalThreadToExit / GetOwnerWakeupSocket *)
 | PShutdown (wait : bool)
 | PJoinTest
@@ -206,6 +209,7 @@ Definition signal (c : chanid) (g : gst) : gst * list ev :=
 
 Section Model.
 
+Variable early : bool.                         (* true: StartInternalThread as found (HasItems() read first, unlocked) *)
 Variable absorb_n : nat.                       (* sizeof(bytes) in WaitForNextMessageAux *)
 Variable react : nat -> list msg * bool.       (* the subclass's MessageReceivedFromOwner: replies, and "exit now" *)
 
@@ -277,11 +281,14 @@ Definition step (c : choice) (g : gst) (l : local) : option (gst * local * list 
       else None
   | PRecvPark x WTimed, CTimeout => fin g RTimedOut k [ETimeout]
   | PStartRead, CRun =>
-      if g_running g then fin g RAlreadyRunning k [] else goto g (PStartSpawn (negb (is_nil (c_q (g_ci g))))) k []
+      if g_running g then fin g RAlreadyRunning k []
+      else goto g (PStartSpawn (if early then negb (is_nil (c_q (g_ci g))) else false)) k []
   | PStartSpawn needs, CRun =>
       let g1 := alloc_sockets g in
       goto (mkG (g_sockets g1) (g_evd g1) (g_alloc g1) true (g_iopen g1) (g_ci g1) (g_co g1) ILive (mkL PIEntry []) (S (g_gen g1)))
-           (PStartSig needs) k [EFork]
+           (if early then PStartSig needs else PStartSpawned) k [EFork]
+  | PStartSpawned, CRun => goto g PStartCheck k []
+  | PStartCheck, CRun => goto g (PStartSig (negb (is_nil (c_q (g_ci g))))) k [EDump]
   | PStartSig needs, CRun =>
       if needs then let (g', e) := signal CI g in fin g' ROk k e else fin g ROk k []
   | PShutdown w, CRun =>
@@ -316,7 +323,7 @@ Definition step (c : choice) (g : gst) (l : local) : option (gst * local * list 
 Definition is_dp (p : pc) : bool :=
   match p with
   | PSendCS _ _ | PSendSig _ _ | PRecvCS _ _ | PRecvGot _ _ _ | PRecvNone _ _ | PRecvPark _ _
-  | PStartSig _ | PJoinWait | PIEntry | PIStartupCS | PIAfterStartup | PIEvWait => true
+  | PStartSpawned | PStartCheck | PStartSig _ | PJoinWait | PIEntry | PIStartupCS | PIAfterStartup | PIEvWait => true
   | _ => false
   end.
 
@@ -384,13 +391,6 @@ Inductive reachable_if (ok : label -> bool) (sockets evd : bool) : sys -> Prop :
 
 Definition any_label (_ : label) : bool := true.
 Definition reachable := reachable_if any_label.
-
-(* the contract "only the owner sends to the internal thread" (every thread may still send replies) *)
-Definition owner_sends_ci (lab : label) : bool :=
-  match lab with
-  | LBegin t (OSend CI _) => Nat.eqb t 0
-  | _ => true
-  end.
 
 (* executable form, for the examples and the driver *)
 Fixpoint run (s : sys) (labs : list label) : option sys :=
